@@ -39,6 +39,14 @@ static std::string unesc(const std::string& t)
   return r;
 }
 
+// DUNE_THROW prefixes the streamed message with "<class> [<function>:<file>:<line>]: "; the payload follows
+static std::string message_of(const Dune::Exception& e)
+{
+  const std::string w = e.what();
+  const auto k = w.find("]: ");
+  return k == std::string::npos ? w : w.substr(k + 3);
+}
+
 static std::string run(const std::vector<std::string>& t)
 {
   const std::string& op = t.at(0);
@@ -101,8 +109,8 @@ static std::string run(const std::vector<std::string>& t)
     }
     return "UNKNOWN-OP";
   }
-  catch (const Dune::NotImplemented&) { return "EXC NotImplemented"; }
-  catch (const Dune::Exception&) { return "EXC Exception"; }
+  catch (const Dune::NotImplemented& e) { return "EXC NotImplemented " + esc(message_of(e)); }
+  catch (const Dune::Exception& e) { return "EXC Exception " + esc(message_of(e)); }
   catch (const std::exception& e) { return std::string("EXC std::") + e.what(); }
 }
 
